@@ -36,8 +36,8 @@ func TestLongLightSideBranch(t *testing.T) {
 		}
 		root := &gen.TNode{Block: b.Chain.Genesis(), TD: new(big.Int).Set(b.Chain.Genesis().Difficulty())}
 		idx := 0
-		longLen := rapid.IntRange(150, 170).Draw(t, "longlen")
-		shortLen := rapid.IntRange(12, 30).Draw(t, "shortlen")
+		longLen := rapid.IntRange(155, 172).Draw(t, "longlen")
+		shortLen := rapid.IntRange(12, 24).Draw(t, "shortlen") // the long branch ends more than 128 above the short one: a pruning node drops the head's state
 		firstPart := longLen - rapid.IntRange(5, 15).Draw(t, "later")
 		var long, short gen.Batch
 		p := root
